@@ -29,7 +29,17 @@ MPSC = dict(engine="mpsc", scale_quick=2, scale_thorough=30, timeout_quick=600, 
 
 HMAP = dict(engine="hmap", scale_quick=1, scale_thorough=12, timeout_quick=900, timeout_thorough=6000)
 
+LOAD = dict(engine="load", scale_quick=1, scale_thorough=15, timeout_quick=900, timeout_thorough=6000)
+LOAD_RULE = ("load engine: 120 scripted cases per unit of scale over 1-3 keys, 6-20 macro steps each: loader-backed Get / explicit Refresh callers (goroutines), a gated loader whose every invocation "
+             "the harness finishes when and how it chooses (value / error / not-found / panic), explicit writes (Set, SetIfAbsent, Compute) and invalidations placed before, during and after loads; "
+             "every step is an event of the Coq protocol model, which must predict who joins, who loads, what is installed, who is released and each key's value after every step; "
+             "distinct_nontrivial = distinct (event kind, join expected?, outcome, superseded?, number of waiters) combinations")
+LOAD_ASSUME = ["atomicity of hashmap.Compute sections (C15) and of the calls table's get-or-create", "eviction/expiration of a key being loaded is modelled as an invalidation event; the engine exercises it through Invalidate only",
+               "timing is used only to decide that a goroutine is blocked (25 ms) — a slow machine can hide a violation, not invent one"]
+
 PROPS = {
+    "C08": dict(engines=[LOAD], rule=LOAD_RULE, assumptions=LOAD_ASSUME),
+    "C09": dict(engines=[LOAD], rule=LOAD_RULE, assumptions=LOAD_ASSUME),
     "C15": dict(engines=[HMAP],
                 rule="hmap engine: (a) 6 sequential cases per unit of scale (size hints 0..3000), 1800-3300 operations each in fill/churn/drain/refill phases over 200-2000 keys with 15% of the keys "
                      "chosen to collide in one bucket under the table's current seed, Clear included; GOMAXPROCS(1) so that resize copies are sequential and the layout deterministic; every call replayed "
@@ -60,7 +70,7 @@ PROPS = {
     "C03": dict(engines=[SEQ], rule=SEQ_RULE + "; the evidence's model_replay_stats.on_expired_* count operations applied to an expired-but-unswept key",
                 assumptions=SEQ_ASSUME),
     "C10": dict(engines=[SEQ], rule=SEQ_RULE, assumptions=SEQ_ASSUME),
-    "C11": dict(engines=[SEQ], rule=SEQ_RULE, assumptions=SEQ_ASSUME + ["in-flight / dedup behaviour of refresh is covered by C08/C09, not here"]),
+    "C11": dict(engines=[SEQ, LOAD], rule=SEQ_RULE + " | " + LOAD_RULE, assumptions=SEQ_ASSUME + ["in-flight / dedup behaviour of refresh is covered by C08/C09, not here"]),
     "C12": dict(engines=[SEQ], rule=SEQ_RULE, assumptions=SEQ_ASSUME),
     "C20": dict(engines=[SEQ], rule=SEQ_RULE, assumptions=SEQ_ASSUME + ["concurrent counting (striped adder) is not covered by this engine"]),
     "C18": dict(
